@@ -6,13 +6,15 @@ import z3
 from .values import *  # noqa
 from .core import *  # noqa
 from .core import _NOCONST
-from .interp import VEmptyList, VEmptySet, TOptObj, TDictRec, Interp
+from .interp import VEmptyList, VEmptySet, TOptObj, TDictRec, Interp, SpecUndef
 from . import frontend
 
 
 # =============================================================== operators
 
 def binop(I, op, a, b):
+    if isinstance(a, VUndef) or isinstance(b, VUndef):
+        return VUndef()
     if not I.spec:
         a, b = I.force(a), I.force(b)
     else:
@@ -132,6 +134,8 @@ def norm_index(I, seq, k):
 
 
 def subscript(I, o, k):
+    if isinstance(o, VUndef) or isinstance(k, VUndef):
+        return VUndef()
     if not I.spec:
         o = I.force(o)
         k = I.force(k)
@@ -368,6 +372,8 @@ STR_METHODS = {"lower", "upper", "strip", "split", "join", "startswith", "endswi
 
 
 def get_attribute(I, o, name, default=_NOCONST):
+    if isinstance(o, VUndef):
+        return VUndef()
     if not I.spec:
         o = I.force(o)
     elif isinstance(o, VOpt):
